@@ -509,6 +509,11 @@ class ProgGen:
         if t.bool(0.5, "sn-drop"):
             specs.pop(1 + t.choose(len(specs) - 1, "sn-which"))
         specs = t.shuffle(specs, "sn-order")      # declaration order matters to text-based bookkeeping
+        # ... in particular the longer name BEFORE the name it extends (`Unit2` before `Unit`): usually that way round
+        ia = next((i for i, sp in enumerate(specs) if sp == (base, [nsA])), None)
+        ib = next((i for i, sp in enumerate(specs) if sp == (base + "2", [nsA])), None)
+        if ia is not None and ib is not None and ia < ib and t.bool(0.7, "sn-longer-first"):
+            specs[ia], specs[ib] = specs[ib], specs[ia]
         I, D = PType("prim", "int"), PType("prim", "double")
         made = []
         for k, (nm, ns) in enumerate(specs):
